@@ -26,7 +26,9 @@ def step_strategy(draw, small):
         'label_mode': draw(st.sampled_from(['disjoint', 'disjoint', 'as_is'])),
         'entry': draw(st.sampled_from(ENTRIES)), 'right': draw(st.booleans()),
         'pairs': [[draw(st.integers(0, 30)), draw(st.integers(0, 30))] for _ in range(draw(st.integers(0, 3)))],
-        'conn_kind': draw(st.sampled_from(['inputs', 'inputs', 'any', 'any', 'repeat'])),
+        'conn_kind': draw(st.sampled_from(['inputs', 'inputs', 'any', 'any', 'repeat', 'full'])),
+        # pass the circuits' own live inputs / outputs lists as connectors whenever a connector list equals one of them
+        'live': draw(st.booleans()),
         'name': draw(st.sampled_from(['', '', 'N', 'blk', 'N'])), 'add_prefix': draw(st.sampled_from([True, True, False])),
     }
 
@@ -61,6 +63,13 @@ def _plan(cur, step, k):
             return dict(entry=entry, this=list(cur['outputs']), other=list(oi), right=False, other_nl=other)
         oo = other['outputs']
         if right and len(ci) == len(oo) and not any(typ_o[o] == 'INPUT' and oo.count(o) > 1 for o in oo):
+            return dict(entry=entry, this=list(ci), other=list(oo), right=True, other_nl=other)
+    if step['conn_kind'] == 'full' and entry in ('connect_circuit', 'extend_explicit'):
+        # the whole outputs / inputs lists given explicitly (what the defaults of extend_circuit stand for)
+        if not right and oi and len(cur['outputs']) == len(oi) and len(set(oi)) == len(oi):
+            return dict(entry=entry, this=list(cur['outputs']), other=list(oi), right=False, other_nl=other)
+        oo = other['outputs']
+        if right and ci and len(ci) == len(oo) and not any(typ_o[o] == 'INPUT' and oo.count(o) > 1 for o in oo):
             return dict(entry=entry, this=list(ci), other=list(oo), right=True, other_nl=other)
     # explicit connectors from the abstract pairs
     this, oth = [], []
@@ -176,19 +185,29 @@ def check_compose(case):
         # carried-over blocks of `other` may clash too
         block_clash = any((pre + b['name']) in cur_blocks or (pre + b['name']) == name for b in step['oblocks'])
         kw = dict(name=name, add_prefix=add_prefix)
+
+        def conn(lst, circ):
+            # callers write c.connect_circuit(o, c.outputs, o.inputs): hand over the live list objects
+            if step.get('live') and lst:
+                for cand in (circ.outputs, circ.inputs):
+                    if list(cand) == list(lst):
+                        cls.add('live_connectors')
+                        return cand
+            return list(lst)
+
         try:
             if entry == 'connect_circuit':
-                ret = c.connect_circuit(oc, list(plan['this']), list(plan['other']), right_connect=plan['right'], **kw)
+                ret = c.connect_circuit(oc, conn(plan['this'], c), conn(plan['other'], oc), right_connect=plan['right'], **kw)
             elif entry == 'connect_left':
-                ret = c.connect_left(oc, list(plan['this']), **kw)
+                ret = c.connect_left(oc, conn(plan['this'], c), **kw)
             elif entry == 'connect_right':
-                ret = c.connect_right(oc, list(plan['other']), **kw)
+                ret = c.connect_right(oc, conn(plan['other'], oc), **kw)
             elif entry == 'connect_inputs':
                 ret = c.connect_inputs(oc, **kw)
             elif entry == 'extend_default':
                 ret = c.extend_circuit(oc, right_connect=plan['right'], **kw)
             elif entry == 'extend_explicit':
-                ret = c.extend_circuit(oc, this_connectors=list(plan['this']), other_connectors=list(plan['other']),
+                ret = c.extend_circuit(oc, this_connectors=conn(plan['this'], c), other_connectors=conn(plan['other'], oc),
                                        right_connect=plan['right'], **kw)
             else:
                 ret = c.add_circuit(oc, **kw)
@@ -304,5 +323,5 @@ SPEC = {
                                      'entry:connect_inputs', 'entry:extend_default', 'entry:extend_explicit',
                                      'entry:add_circuit', 'right_to_internal_gate', 'right_repeated_attached_gate',
                                      'left_repeated_base_gate', 'left_from_internal_gate', 'block_extracted',
-                                     'other_has_blocks', 'repeated_composition', 'named_no_prefix']},
+                                     'other_has_blocks', 'repeated_composition', 'named_no_prefix', 'live_connectors']},
 }
